@@ -100,12 +100,23 @@ __CPROVER_ensures(1)
  * zero at offset g_rz of the released block for g_rz < g_rsize; the watched range is the string's data bytes and the
  * terminator, [STR_HDR, STR_HDR + len + 1) of the block (the header fields allocator / len are not contents).
  * Only the data bytes are written (the frame), also for a string without allocator (zeroed, not released). */
+#ifdef VERIF_STR_NO_ALLOCATOR /* case unit: the path that zeroes a string without allocator and keeps it */
+#    define DESTROY_SECURE_CASE __CPROVER_requires(str != NULL && str->allocator == NULL)
+#else
+#    define DESTROY_SECURE_CASE
+#endif
+bool g_str_owned; /* ghost: the string handed to aws_string_destroy_secure has an allocator (witness clauses only, under g_on) */
 void aws_string_destroy_secure(struct aws_string *str)
 __CPROVER_requires(STR_OK_OR_NULL(str, g_la))
+DESTROY_SECURE_CASE
 __CPROVER_requires(g_zero_on && str != NULL ==> g_rz >= STR_HDR && g_rsize == STR_SIZE(str->len))
+__CPROVER_requires(g_on && str != NULL ==> g_str_owned == (str->allocator != NULL))
 __CPROVER_assigns(str != NULL && str->len > 0 : __CPROVER_object_upto((uint8_t *)str + STR_HDR, str->len))
 __CPROVER_frees(str != NULL && str->allocator != NULL : str)
-__CPROVER_ensures(1)
+/* a string without allocator stays with the caller: zeroed all the same.  (CBMC 6.11 does not capture history variables
+ * of the const-qualified fields str->allocator / str->len, so the old values are named by ghosts: the length is g_la,
+ * "has an allocator" is g_str_owned.) */
+__CPROVER_ensures(g_on && str != NULL && !g_str_owned && g_rz >= STR_HDR && g_rz < STR_SIZE(g_la) ==> ((const uint8_t *)str)[g_rz] == 0)
 ;
 
 /* ------------------------------------------------------------------ equality / comparison (nothing but g_mm written) */
@@ -224,9 +235,13 @@ ENS_STRING_ORDER(true, a, b)
 const struct aws_string *g_sa;
 const struct aws_string *g_sb;
 #define SLOT(p) (*(const struct aws_string *const *)(p))
+/* the element is NULL or a valid string of length L; G names it */
+#define SLOT_OK(p, G, L)                                                                                               \
+    ((SLOT(p) == NULL && (G) == NULL) ||                                                                               \
+     ((L) < VERIF_HUGE && __CPROVER_is_fresh(SLOT(p), STR_SIZE(L)) && PEQ((G), SLOT(p)) && (G)->len == (L) && (G)->bytes[(L)] == 0))
 int aws_array_list_comparator_string(const void *a, const void *b)
-__CPROVER_requires(a == NULL || (__CPROVER_is_fresh(a, sizeof(struct aws_string *)) && STR_OK_OR_NULL(SLOT(a), g_la) && PEQ(g_sa, SLOT(a))))
-__CPROVER_requires(b == NULL || (__CPROVER_is_fresh(b, sizeof(struct aws_string *)) && STR_OK_OR_NULL(SLOT(b), g_lb) && PEQ(g_sb, SLOT(b))))
+__CPROVER_requires(a == NULL || (__CPROVER_is_fresh(a, sizeof(struct aws_string *)) && SLOT_OK(a, g_sa, g_la)))
+__CPROVER_requires(b == NULL || (__CPROVER_is_fresh(b, sizeof(struct aws_string *)) && SLOT_OK(b, g_sb, g_lb)))
 __CPROVER_assigns(g_mm)
 __CPROVER_ensures(a == NULL && b == NULL ==> RET == 0)
 __CPROVER_ensures(a == NULL && b != NULL ==> RET == -1)
